@@ -327,7 +327,17 @@ func TestReplay(t *testing.T) {
 	}
 	mm := []mismatch{}
 	blocks := 0
+	shard, nshards := 0, 1
+	fmt.Sscanf(os.Getenv("VERIF_SHARD"), "%d/%d", &shard, &nshards)
+	if nshards < 1 {
+		nshards = 1
+	}
+	done := 0
 	for bi, b := range bs {
+		if bi%nshards != shard {
+			continue
+		}
+		done++
 		w := newWorld(b.Conf, time.Second)
 		for ki, gb := range b.Blocks {
 			blocks++
@@ -385,7 +395,7 @@ func TestReplay(t *testing.T) {
 			break
 		}
 	}
-	res := map[string]any{"behaviours": len(bs), "blocks": blocks, "mismatches": mm}
+	res := map[string]any{"behaviours": done, "blocks": blocks, "mismatches": mm}
 	bz, _ := json.Marshal(res)
 	if err := os.WriteFile(out, bz, 0o644); err != nil {
 		t.Fatal(err)
